@@ -151,16 +151,18 @@ theorem forks_independent (s s' : Store) (r₂ : Bytes) (n₂ : Node)
   exact load_stable s.cfg s.db s'.db hsub n₁ h1 hf1 fuel top r₁ hr1 hd
 
 /-- **commit_exact_content_full / forks_independent_full** (store without the height prefix) — no `Consistent`
-hypothesis: the pending tree is keyed by the hashes of its content (`PH`, `C01.hashNode_keys_content`), the database
-only holds such records (`DBInv`).  Commit then makes exactly the pending tree loadable at its root, keeps every
-earlier record (so every other branch's committed root loads to the same tree, `C01.old_roots_stable`) and keeps
-`DBInv` — or the hash function has a collision. -/
+hypothesis: the pending tree is keyed by the hashes of its content (`PH`, `C01.hashNode_keys_content`), every record
+of the database is the record of a node of the explicit list `W` (`DBInv`).  Commit then makes exactly the pending
+tree loadable at its root, keeps every earlier record (so every other branch's committed root loads to the same
+tree, `C01.old_roots_stable`) and keeps `DBInv` — or two different strings among those hashed in the pending tree
+and in the nodes of `W` have the same hash (located collision). -/
 theorem commit_exact_content_full {H : Bytes → Bytes} (hlen : ∀ x, (H x).length = 32) (s s' : Store) (r : Bytes)
-    (n : Node) (hp : lookupTree s.trees r = some (some n)) (hc : commit s r = (.ok r, s'))
-    (hph : PH H n) (hs : C03.Shape n) (hk : KeyMin n) (hdb : DBInv H s.cfg s.db)
+    (n : Node) (W : List Node) (hp : lookupTree s.trees r = some (some n)) (hc : commit s r = (.ok r, s'))
+    (hph : PH H n) (hs : C03.Shape n) (hk : KeyMin n) (hdb : DBInv H s.cfg s.db W)
     (hps : PersistedStored s.cfg s.db n) (hf : FitsRec n) (fuel : Nat) (top : Bool) (hd : depth n < fuel) :
-    (load s'.db fuel top (pureHash H n) = .ok (asLoaded s.cfg n) ∧ Sub s.db s'.db ∧ DBInv H s.cfg s'.db) ∨
-      C03.Collision H := by
+    (load s'.db fuel top (pureHash H n) = .ok (asLoaded s.cfg n) ∧ Sub s.db s'.db ∧
+      DBInv H s.cfg s'.db (W ++ subnodes n)) ∨
+      C03.CollisionIn H (C03.treeTrace H n ++ tracesOf H W) := by
   unfold commit at hc
   simp only [hp] at hc
   cases hsv : save s.cfg n s.db with
@@ -169,18 +171,18 @@ theorem commit_exact_content_full {H : Bytes → Bytes} (hlen : ∀ x, (H x).len
     obtain ⟨n', db'⟩ := pr
     simp only [hsv, Prod.mk.injEq, true_and] at hc
     subst hc
-    rcases load_save_full hlen s.cfg n n' s.db db' hsv hph hs hk hdb hps hf fuel top hd with ⟨a, b, _, d⟩ | c
+    rcases load_save_full hlen s.cfg n n' s.db db' W hsv hph hs hk hdb hps hf fuel top hd with ⟨a, b, _, d⟩ | c
     · exact Or.inl (by simpa [Store.cacheTree] using And.intro a (And.intro b d))
     · exact Or.inr c
 
 theorem forks_independent_full {H : Bytes → Bytes} (hlen : ∀ x, (H x).length = 32) (s s' : Store) (r₂ : Bytes)
-    (n₂ : Node) (hp : lookupTree s.trees r₂ = some (some n₂)) (hc : commit s r₂ = (.ok r₂, s'))
-    (hph : PH H n₂) (hs : C03.Shape n₂) (hk : KeyMin n₂) (hdb : DBInv H s.cfg s.db)
+    (n₂ : Node) (W : List Node) (hp : lookupTree s.trees r₂ = some (some n₂)) (hc : commit s r₂ = (.ok r₂, s'))
+    (hph : PH H n₂) (hs : C03.Shape n₂) (hk : KeyMin n₂) (hdb : DBInv H s.cfg s.db W)
     (hps : PersistedStored s.cfg s.db n₂) (hf : FitsRec n₂)
     (n₁ : Node) (r₁ : Bytes) (h1 : Stored s.cfg s.db n₁) (hf1 : FitsRec n₁) (hr1 : n₁.info.hk = some r₁)
     (fuel : Nat) (top : Bool) (hd : depth n₁ < fuel) :
-    load s'.db fuel top r₁ = load s.db fuel top r₁ ∨ C03.Collision H := by
-  rcases commit_exact_content_full hlen s s' r₂ n₂ hp hc hph hs hk hdb hps hf (depth n₂ + 1) true (by omega) with
+    load s'.db fuel top r₁ = load s.db fuel top r₁ ∨ C03.CollisionIn H (C03.treeTrace H n₂ ++ tracesOf H W) := by
+  rcases commit_exact_content_full hlen s s' r₂ n₂ W hp hc hph hs hk hdb hps hf (depth n₂ + 1) true (by omega) with
     ⟨_, hsub, _⟩ | c
   · exact Or.inl (load_stable s.cfg s.db s'.db hsub n₁ h1 hf1 fuel top r₁ hr1 hd)
   · exact Or.inr c
